@@ -1,0 +1,43 @@
+//go:build verif
+
+// Contracts for contract-based deductive verification (checked by /verif/govc).
+// This file is comment-only and compiled only with the build tag "verif".
+//
+// C14/C15 (no request blocks for ever): the asynchronous pod-resources queries. The resource manager hands the
+// returned channel to the cache; the pod's fetch goroutine receives from it and only then releases the readers of the
+// pod's resources (cache.(*pod).GetPodResources). Whatever the outcome of the query, the query goroutine closes the
+// channel, so that receive always returns.
+// Model: channels carry no contents; close() is recorded per channel (`closed(ch)`), closing twice or sending on a
+// closed channel is a safety obligation; a `go` statement is followed in two schedules (ran to completion / not started).
+
+package agent
+
+// The kubelet queries themselves (gRPC client, context with timeout) are outside the verified subset.
+//@ assume-contract (*Agent).GetPodResources
+//@   modifies nothing
+//@ assume-contract (*Agent).ListPodResources
+//@   modifies nothing
+//@ assume-contract github.com/containers/nri-plugins/pkg/agent/podresapi.(*Client).HasClient
+//@   modifies nothing
+
+//@ func (*Agent).GoGetPodResources$1 safety=C14,C15
+//@   requires ch != nil && !closed(ch)
+//@   modifies closed(ch)
+//@   ensures[C14,C15] closed(ch)
+
+//@ func (*Agent).GoListPodResources$1 safety=C14,C15
+//@   requires ch != nil && !closed(ch)
+//@   modifies closed(ch)
+//@   ensures[C14,C15] closed(ch)
+
+// The spawning functions: no client - no channel (the cache then does not wait); otherwise a fresh open channel that
+// the query goroutine closes.
+//@ func (*Agent).GoGetPodResources safety=C14,C15
+//@   requires a != nil
+//@   modifies nothing
+//@   ensures[C14,C15] result == nil || fresh(result)
+
+//@ func (*Agent).GoListPodResources safety=C14,C15
+//@   requires a != nil
+//@   modifies nothing
+//@   ensures[C14,C15] result == nil || fresh(result)
